@@ -14,8 +14,8 @@ Nil == [x \in {} |-> 0]
 
 Fields == {"ep", "cb", "lo", "cid", "sec", "hdr", "sc"}
 Classes(f) ==
-  CASE f = "ep"  -> {"absent", "explicit", "discovery", "partial", "emptyFetcher", "emptyJwks"}
-    [] f = "cb"  -> {"absent", "ok", "root", "noPath", "unparsable", "sameAsLoD"}
+  CASE f = "ep"  -> {"absent", "explicit", "discovery", "partial", "noToken", "emptyFetcher", "emptyJwks"}
+    [] f = "cb"  -> {"absent", "ok", "root", "rootQuery", "noPath", "unparsable", "sameAsLoD"}
     [] f = "lo"  -> {"absent", "ok", "rootPath", "sameAsCb", "sameAsCbD"}
     [] f = "cid" -> {"absent", "ok", "colon"}
     [] f = "sec" -> {"absent", "literal", "ref", "refNoName"}
@@ -29,12 +29,15 @@ Absent == [f \in Fields |-> "absent"]
 EpJ(c, T) == CASE c = "explicit" -> [authorization_uri |-> "https://idp-" \o T \o ".test/authorize", token_uri |-> "https://idp-" \o T \o ".test/token", jwks |-> "{\"keys\":[]}"]
                [] c = "discovery" -> [configuration_uri |-> "https://idp-" \o T \o ".test/.well-known/openid-configuration"]
                [] c = "partial" -> [authorization_uri |-> "https://idp-" \o T \o ".test/authorize"]
+               \* everything but the token endpoint
+               [] c = "noToken" -> [authorization_uri |-> "https://idp-" \o T \o ".test/authorize", jwks |-> "{\"keys\":[]}"]
                \* both endpoints but no usable key source: a fetcher without URI / an empty static key set
                [] c = "emptyFetcher" -> [authorization_uri |-> "https://idp-" \o T \o ".test/authorize", token_uri |-> "https://idp-" \o T \o ".test/token", jwks_fetcher |-> [periodic_fetch_interval_sec |-> 60]]
                [] c = "emptyJwks" -> [authorization_uri |-> "https://idp-" \o T \o ".test/authorize", token_uri |-> "https://idp-" \o T \o ".test/token", jwks |-> ""]
                [] OTHER -> Nil
 CbJ(c, T) == CASE c = "ok" -> [callback_uri |-> "https://app.test/cb-" \o T]
                [] c = "root" -> [callback_uri |-> "https://app.test/"]
+               [] c = "rootQuery" -> [callback_uri |-> "https://app.test/?source=idp-" \o T]      \* the root path, with a query
                [] c = "noPath" -> [callback_uri |-> "https://app.test"]
                [] c = "unparsable" -> [callback_uri |-> "://app-" \o T]
                [] c = "sameAsLoD" -> [callback_uri |-> "https://app.test/logout-D"]      \* the path of the DEFAULT section's logout
@@ -77,8 +80,9 @@ DocJ(doc) ==
 \* that sets only the namespace over a default reference keeps the default's name.
 Eff(doc, flt, f) ==
   IF flt.type = "override" /\ doc.def.present
-  THEN IF f = "ep" /\ flt.f.ep = "partial" /\ doc.def.f.ep \in {"explicit", "discovery"} THEN <<doc.def.f.ep, IF doc.def.f.ep = "explicit" THEN flt.tag ELSE "D">>
-       ELSE IF f = "ep" /\ flt.f.ep \in {"emptyFetcher", "emptyJwks", "partial"} /\ doc.def.f.ep = "discovery" THEN <<"discovery", "D">>   \* discovery supplies the keys
+  THEN IF f = "ep" /\ flt.f.ep \in {"partial", "noToken"} /\ doc.def.f.ep \in {"explicit", "discovery"} THEN <<doc.def.f.ep, IF doc.def.f.ep = "explicit" THEN flt.tag ELSE "D">>
+       ELSE IF f = "ep" /\ flt.f.ep = "noToken" /\ doc.def.f.ep \in {"emptyFetcher", "emptyJwks"} THEN <<"explicit", flt.tag>>   \* the default supplies the token endpoint, the override the keys
+       ELSE IF f = "ep" /\ flt.f.ep \in {"emptyFetcher", "emptyJwks", "partial", "noToken"} /\ doc.def.f.ep = "discovery" THEN <<"discovery", "D">>   \* discovery supplies the keys
        ELSE IF f = "ep" /\ flt.f.ep = "emptyJwks" /\ doc.def.f.ep = "explicit" THEN <<"explicit", flt.tag>>   \* an empty string does not override the default's static keys
        ELSE IF f = "sec" /\ flt.f.sec = "refNoName" /\ doc.def.f.sec = "ref" THEN <<"ref", "D">>
        ELSE IF flt.f[f] # "absent" THEN <<flt.f[f], flt.tag>> ELSE <<doc.def.f[f], "D">>
@@ -98,7 +102,7 @@ EffPreamble(doc, flt) ==
   THEN IF o \in {"ok", "preambleOnly"} THEN "Pre" \o flt.tag ELSE IF d \in {"ok", "preambleOnly"} THEN "PreD" ELSE ""
   ELSE IF o \in {"ok", "preambleOnly"} THEN "Pre" \o flt.tag ELSE ""
 
-CbPath(e) == CASE e[1] = "ok" -> "/cb-" \o e[2] [] e[1] = "root" -> "/" [] e[1] = "sameAsLoD" -> "/logout-D" [] OTHER -> ""
+CbPath(e) == CASE e[1] = "ok" -> "/cb-" \o e[2] [] e[1] \in {"root", "rootQuery"} -> "/" [] e[1] = "sameAsLoD" -> "/logout-D" [] OTHER -> ""
 LoPath(e) == CASE e[1] = "ok" -> "/logout-" \o e[2] [] e[1] = "rootPath" -> "/" [] e[1] = "sameAsCb" -> "/cb-" \o e[2] [] e[1] = "sameAsCbD" -> "/cb-D" [] OTHER -> ""
 
 IsOidc(flt) == flt.type \in {"oidc", "override"}
@@ -109,13 +113,13 @@ FilterMustReject(doc, flt) ==
   \/ Eff(doc, flt, "cid")[1] \in {"absent", "colon"}
   \/ Eff(doc, flt, "sec")[1] \in {"absent", "refNoName"}
   \/ EffHeader(doc, flt) = ""
-  \/ Eff(doc, flt, "ep")[1] \in {"absent", "partial", "emptyFetcher", "emptyJwks"}
-  \/ Eff(doc, flt, "cb")[1] \in {"absent", "root", "noPath", "unparsable"}
+  \/ Eff(doc, flt, "ep")[1] \in {"absent", "partial", "noToken", "emptyFetcher", "emptyJwks"}
+  \/ Eff(doc, flt, "cb")[1] \in {"absent", "root", "rootQuery", "noPath", "unparsable"}
   \/ Eff(doc, flt, "lo")[1] = "rootPath"
   \/ (Eff(doc, flt, "lo")[1] # "absent" /\ LoPath(Eff(doc, flt, "lo")) = CbPath(Eff(doc, flt, "cb")))
 
 \* a section with a class the loader must refuse wherever it is written, even if it is overridden later
-SectionBad(fc) == fc.cb \in {"root", "noPath", "unparsable"}
+SectionBad(fc) == fc.cb \in {"root", "rootQuery", "noPath", "unparsable"}
 
 MustReject(doc) ==
   \/ doc.chains = <<>>
